@@ -170,6 +170,15 @@ def run(chk):
         if res != "same %d" % (n * int(c[1][1])):
             chk.violate({"kind": "property", "case": lib.show_case(c), "impl": res[:1500], "expected": "same %d" % (n * int(c[1][1])),
                          "explanation": "a value encoded several times in a row through one encoder is not written the same every time, or does not read back as that many paragraphs"})
+    # the error path of the encoder: Encode(slice) in which a later element refuses to marshal, then one more Encode through
+    # the same encoder - what was written reads back as separate paragraphs, never two values glued into one
+    fc = [("wfail", [t, str(k).encode()]) for t, r in multi[:chk.n(300, 6000)] if len(vals_of(by_doc[t])) >= 2 for k in (1, 2)]
+    fi = chk.run_impl(fc)
+    chk.record("encoder-after-a-failed-slice", fc, fi, lambda c, r: r == "separate")
+    for c, res in zip(fc, fi):
+        if res != "separate":
+            chk.violate({"kind": "property", "case": lib.show_case(c), "impl": res[:1500],
+                         "explanation": "after Encode(slice) failed at a later element, the next value written through the same encoder is glued onto an earlier paragraph (or the output does not read back)"})
     chk.assumptions += ["values are sequences of text lines: no line is '.' alone or whitespace-only (deb822 cannot represent them)",
                         "a value whose first logical line is empty while more lines follow is excluded: known finding empty-first-line",
                         "the executed writer/reader model handles Unicode whitespace exactly as Go does (R2u)"]
